@@ -48,7 +48,8 @@ package chpool
 
 //@ -- constructor / destructor handed to puddle
 //@ contract newPool$1(ctx) (r, err) props(C11)
-//@   requires *p != nil
+//@   requires *p != nil && ctx != nil
+//@   modifies all(ctx), all(*p)
 //@   ensures err == nil ==> r != nil && r.client != nil {value-has-client}
 //@   ensures err != nil ==> r == nil
 //@ contract newPool$2(c) props(C11)
